@@ -1361,6 +1361,18 @@ def case_assorters(rep):
                 if got != (wv > f * len(valid) + 1e-12) and not math.isclose(wv, f * len(valid)):
                     rep.fail("super-majority mean exceeds 1/2 exactly when the winner's votes exceed the share of the valid votes",
                              {"cards": [simple[k] for k in coll], "share": f}, got=got, expected=(wv, len(valid)))
+                # margin from the tally of the valid votes (a ballot marking more than one candidate is invalid) = 2 mean - 1
+                if valid:
+                    Contest.tally({"con": con}, cl, enforce_rules=True)
+                    try:
+                        asn.find_margin_from_tally()
+                        m_t = asn.margin
+                    except Exception as ex:
+                        m_t = type(ex).__name__
+                    m_a = 2 * asn.assorter.mean(cl, use_style=False) - 1
+                    if not (isinstance(m_t, (int, float, np.floating)) and math.isclose(m_t, m_a, abs_tol=1e-12)):
+                        rep.fail("super-majority: margin from the vote tally = 2 mean - 1 over the same cards",
+                                 {"cards": [simple[k] for k in coll], "share": f, "tally": dict(con.tally)}, got=m_t, expected=m_a)
     rep.sample({"card": {"con": {"A": 2, "B": ""}}, "pair": ["A", "B"], "expected": 1.0})
 
 
